@@ -1,0 +1,21 @@
+//go:build verif
+
+package server
+
+import "github.com/gopcua/opcua/ua"
+
+// VerifNodeRefs returns a copy of the node's own reference list.
+func VerifNodeRefs(n *Node) []*ua.ReferenceDescription {
+	return append([]*ua.ReferenceDescription(nil), n.refs...)
+}
+
+// VerifSessionTokens returns the authentication tokens of the sessions the server currently knows.
+func VerifSessionTokens(s *Server) []string {
+	s.sb.mu.Lock()
+	defer s.sb.mu.Unlock()
+	var res []string
+	for k := range s.sb.s {
+		res = append(res, k)
+	}
+	return res
+}
